@@ -45,7 +45,7 @@ def units(tier, seed):
     us = [{"kind": "run", "descs": c} for c in chunks(descs, 12)]
     for mode, desc in lifecycle_descs(tier, seed, objs=("plateau", "twofunnel"), maximize=(False, True)):
         if mode == "bounded":
-            us += split_units(desc, 1 if tier == "quick" else 2, "GLS", {"kind": "life"})
+            us += split_units(desc, min(1 if tier == "quick" else 2, desc.get("max_bound", 9)), "GLS", {"kind": "life"})
     return us
 
 
